@@ -100,7 +100,9 @@ def run_check(pid, P, tier, seed, replay, wd, t0):
     # ---- 1. regenerate data from /repo, build proofs + driver, audit
     import regen
     regen_note = regen.regenerate()
-    targets = P.get("lean_targets", [f"ChipFiring.Properties.{pid}"])
+    targets = list(P.get("lean_targets", [f"ChipFiring.Properties.{pid}"]))
+    if tier == "thorough":
+        targets += P.get("lean_targets_thorough", [])
     ok_drv, log_drv = core.lake_build(["driver"])
     if not ok_drv:
         raise core.Infra("model driver does not build:\n" + log_drv[-3000:])
@@ -163,8 +165,11 @@ def run_check(pid, P, tier, seed, replay, wd, t0):
     if gj:
         for r, fails in gj(recs):
             entry = {"scenario": r["scn"], "detail": None, "property_failures": fails}
-            if props.match_known(findings, r, None, fails) is None:
+            k = props.match_known(findings, r, None, fails)
+            if k is None:
                 definite.append(entry)
+            else:
+                known_hits.setdefault(k["id"], (k, entry))
 
     # ---- 4. failing-input search when something broke without a concrete failing input
     searched = 0
